@@ -292,7 +292,9 @@ impl<'a> Gen<'a> {
                 K::OneShot => (7, true),
                 K::OneShotPause => (1, true),
                 K::TapDance => (if c.no_waiting { 0 } else { 5 }, false),
-                K::ChordV1 => (if c.no_waiting || self.chord_groups.is_empty() { 0 } else { 6 }, true),
+                // (inside a virtual key a chord / repeat / macro replay can re-trigger the virtual
+                // key that performs it: a configuration-level loop, not generated)
+                K::ChordV1 => (if c.no_waiting || c.in_vkey || self.chord_groups.is_empty() { 0 } else { 6 }, true),
                 K::ReleaseKey => (3, true),
                 K::ReleaseLayer => (2, true),
                 K::VkeyBalanced => (if self.vkeys_defined == 0 { 0 } else { 5 }, true),
@@ -307,7 +309,7 @@ impl<'a> Gen<'a> {
                 K::MouseBtn => (3, true),
                 K::MouseTap => (2, true),
                 K::MWheelNotch => (2, true),
-                K::DynMacro => (3, true),
+                K::DynMacro => (if c.in_vkey { 0 } else { 3 }, true),
                 K::ArbitraryCode => (2, true),
                 K::PushMsg => (1, true),
                 K::Fork => (5, false),
@@ -317,8 +319,8 @@ impl<'a> Gen<'a> {
                 K::SeqNoerase => (if self.p.sequences { 1 } else { 0 }, true),
                 K::Unmod => (3, true),
                 K::Unshift => (2, true),
-                K::Rpt => (2, true),
-                K::RptAny => (2, true),
+                K::Rpt => (if c.in_vkey { 0 } else { 2 }, true),
+                K::RptAny => (if c.in_vkey { 0 } else { 2 }, true),
                 K::Delay => (1, true),
                 K::ReverseRelease => (if c.in_multi { 2 } else { 0 }, true),
                 K::Alias => (if self.aliases.is_empty() || c.in_vkey { 0 } else { 4 }, true),
